@@ -1,9 +1,11 @@
 // In-process implementation driver for the pure/state-machine properties.
 #include "common.h"
 void registerBase64(std::map<std::string, vh::Op>& ops);
+void registerMime(std::map<std::string, vh::Op>& ops);
 int main()
 {
     std::map<std::string, vh::Op> ops;
     registerBase64(ops);
+    registerMime(ops);
     return vh::runLoop(ops);
 }
